@@ -2,7 +2,7 @@
 # tools/matrix_all.sh [seed ids...] — re-run the quick tier of each seeded change's own check (plus the cross-checks below)
 # against a private copy with the change applied; detect.log of each seed is rewritten.  Two lanes of 8 workers.
 cd /verif
-declare -A EXTRA=( [C04-m2]="C06" [C17-m2]="C13" [C17-m3]="C13" [C05-m5]="C04" [C08-m6]="C03" [C11-m6]="C12" )
+declare -A EXTRA=( [C04-m2]="C06" [C17-m2]="C13" [C17-m3]="C13" [C05-m5]="C04" [C08-m6]="C03" [C11-m6]="C12" [C22-m4]="C20" )
 SEEDS=${@:-$(ls seeded | grep -E '^C[0-9]+-m[0-9]+$')}
 lane() {
   for s in "$@"; do
